@@ -1,7 +1,7 @@
 (* C01 - Compilation never panics or aborts.  PARTIAL: the parser and the stack are
    not modelled; what is proved is the panic-site ledger and the site lemmas. *)
 From Coq Require Import String List ZArith NArith Bool.
-From RV Require Import Gen.PanicSites Model.PanicLedger Model.Indent Run.C01 Proofs.C01.
+From RV Require Import Gen.PanicSites Gen.SiteShapes Model.PanicLedger Model.Indent Model.PanicSitesModels Run.C01 Proofs.C01 Proofs.C01Sites.
 
 (* full statement, kept visible: for every input within the bounds the outcome is ok or err *)
 Definition C01_statement : Prop :=
@@ -32,6 +32,90 @@ Print Assumptions C01_indent_exact_inside.
 Theorem C01_sites_partial_nesting : forall c d, model_outcome (mkCase 1 c d 0) = Some 0%Z.
 Proof. exact nesting_safe. Qed.
 Print Assumptions C01_sites_partial_nesting.
+
+(* ---- site lemmas (Model/PanicSitesModels.v): the Panic branch of the modelled index / slice / arithmetic logic is
+   unreachable for ALL inputs; hypotheses = what the Rust types or the callers guarantee (i64 range of a Sass integer,
+   Vec/str lengths <= isize::MAX, str::find returning a char boundary, the keyword preceding a declaration position) ---- *)
+
+(* the modelled functions still have the text the models were written against *)
+Theorem C01_site_texts_current : site_texts_current = true.
+Proof. exact site_texts_current_ok. Qed.
+Print Assumptions C01_site_texts_current.
+
+Theorem C01_site_index_of : forall n len, is_i64 n -> is_len len ->
+  index_of n len <> Panic /\ (forall i, index_of n len = Ok i -> (0 <= i < len)%Z).
+Proof. exact index_of_spec. Qed.
+Print Assumptions C01_site_index_of.
+
+Theorem C01_site_nth_list : forall n len, is_i64 n -> is_len len -> nth_list n len <> Panic.
+Proof. exact nth_list_safe. Qed.
+Print Assumptions C01_site_nth_list.
+
+Theorem C01_site_nth_arglist : forall n pos named, is_i64 n -> is_len pos -> is_len named -> (pos + named <= ISIZE_MAX)%Z ->
+  nth_arglist n pos named <> Panic.
+Proof. exact nth_arglist_safe. Qed.
+Print Assumptions C01_site_nth_arglist.
+
+Theorem C01_site_index_map_pair : forall len, index_map_pair len <> Panic.
+Proof. exact index_map_pair_safe. Qed.
+Print Assumptions C01_site_index_map_pair.
+
+Theorem C01_site_enumerate_plus_one : forall i len, is_len len -> (0 <= i < len)%Z -> enumerate_plus_one i <> Panic.
+Proof. exact enumerate_plus_one_safe. Qed.
+Print Assumptions C01_site_enumerate_plus_one.
+
+Theorem C01_site_zip_access : forall lens i, zip_access lens i <> Panic.
+Proof. exact zip_access_safe. Qed.
+Print Assumptions C01_site_zip_access.
+
+Theorem C01_site_insert_index : forall index len, is_i64 index -> insert_index index len <> Panic.
+Proof. exact insert_index_safe. Qed.
+Print Assumptions C01_site_insert_index.
+
+Theorem C01_site_slice_start : forall start_at len, is_i64 start_at -> slice_start start_at len <> Panic.
+Proof. exact slice_start_safe. Qed.
+Print Assumptions C01_site_slice_start.
+
+Theorem C01_site_slice_end : forall end_at len, is_i64 end_at -> slice_end end_at len <> Panic.
+Proof. exact slice_end_safe. Qed.
+Print Assumptions C01_site_slice_end.
+
+Theorem C01_site_str_index : forall len i count, is_len len -> (0 <= i <= len)%Z -> (0 <= count <= len)%Z ->
+  str_index_site len i count true <> Panic.
+Proof. exact str_index_site_safe. Qed.
+Print Assumptions C01_site_str_index.
+
+Theorem C01_site_deep_remove : forall len inner, deep_remove len inner <> Panic.
+Proof. exact deep_remove_safe. Qed.
+Print Assumptions C01_site_deep_remove.
+
+Theorem C01_site_guarded_index : forall len k j, (0 <= j < k)%Z -> guarded_index len k j <> Panic.
+Proof. exact guarded_index_safe. Qed.
+Print Assumptions C01_site_guarded_index.
+
+Theorem C01_site_conv_names : forall w, (0 <= w <= 2)%Z -> conv_names w <> Panic.
+Proof. exact conv_names_safe. Qed.
+Print Assumptions C01_site_conv_names.
+
+Theorem C01_site_slice_full : forall len, (0 <= len)%Z -> slice_full len <> Panic.
+Proof. exact slice_full_safe. Qed.
+Print Assumptions C01_site_slice_full.
+
+Theorem C01_site_do_indent_no_nl : forall c indent, do_indent_no_nl c indent <> Panic.
+Proof. exact do_indent_no_nl_safe. Qed.
+Print Assumptions C01_site_do_indent_no_nl.
+
+Theorem C01_site_call_args_len : forall pos named, is_len pos -> is_len named -> call_args_len pos named <> Panic.
+Proof. exact call_args_len_safe. Qed.
+Print Assumptions C01_site_call_args_len.
+
+(* SourcePos::opt_back(s) is safe when at least s.len() bytes precede the position, which its five callers
+   establish syntactically ("@function " / "@mixin " / "$" / "module." has just been parsed before it);
+   without that the subtraction underflows (second part) *)
+Theorem C01_site_opt_back : (forall start len m, is_len start -> (0 <= len <= start)%Z -> opt_back start len m <> Panic)
+  /\ opt_back 3 10 false = Panic.
+Proof. split; [exact opt_back_safe|exact opt_back_needs_invariant]. Qed.
+Print Assumptions C01_site_opt_back.
 
 Example C01_nonvacuous : (2 * 10 + 2 < indent_static_len)%N.
 Proof. vm_compute. reflexivity. Qed.
